@@ -17,7 +17,21 @@ import (
 
 const NNames = 6
 
-func name(i int) string { return fmt.Sprintf("t%d", i) }
+// The type names are distinct strings that a normalising lookup would
+// confuse: a name and the same name behind "*" (what publishing through a
+// pointer stores), names differing only in case, and a name that is a prefix
+// of another.  Each is a type of its own.
+var typeNames = [NNames]string{"t0", "*t0", "pkg.Order", "*pkg.Order", "pkg.order", "t0.v2"}
+
+func name(i int) string {
+	if i < NNames {
+		return typeNames[i]
+	}
+	if i%2 == 1 {
+		return fmt.Sprintf("*t%d", i-1) // the pointer spelling of the name before it
+	}
+	return fmt.Sprintf("t%d", i)
+}
 
 type Edge struct {
 	From int  `json:"from"`
